@@ -25,7 +25,8 @@ vars == <<l, ph, has, nb, ok, ub, viol, dev, stat>>
 Rec == TraceLog[l]
 
 Ops == {"Find", "FindMax", "MoveI", "MoveB", "Cross", "SetDir", "Safety"}
-Kinds == Ops \cup {"Init", "judged", "unjudged", "facts_U", "rays", "sphere_pts", "safety_pos", "histories"}
+Kinds == Ops \cup {"Init", "judged", "unjudged", "facts_U", "rays", "sphere_pts", "safety_pos", "histories",
+                   "turns_exiting", "turns_reentrant", "turns_near_tangent"}
 
 Init ==
   /\ l = 1 /\ ph = "O" /\ has = FALSE /\ nb = FALSE /\ ok = FALSE /\ ub = FALSE
@@ -37,7 +38,7 @@ Bump(f, names) ==
      ELSE f[c]]
 
 IfF(fact, name) == IF fact = "F" THEN {name} ELSE {}
-NumU(r) == Cardinality({k \in (DOMAIN r) \cap {"f_vol", "f_out", "f_same", "f_change", "f_rev", "sphere_ok"} : r[k] = "U"})
+NumU(r) == Cardinality({k \in (DOMAIN r) \cap {"f_vol", "f_out", "f_same", "f_change", "f_rev", "sphere_ok", "f_dec"} : r[k] = "U"})
 
 \* after every call
 StateClauses(r, phase) ==
@@ -124,9 +125,21 @@ TCross ==
   /\ has' = FALSE /\ nb' = FALSE
   /\ UNCHANGED ub
 
+\* set_dir on a boundary decides whether the pending / completed crossing is exiting or re-entrant by
+\* comparing the old and new direction with the surface normal.  That normal is a function of
+\* (surface, position LOCAL to the level that owns the surface), rotated to the global frame from THAT
+\* level.  f_dec = the navigator's decision (its boundary flag after the call) agrees with the sign of
+\* (direction . TRUE normal) supplied by the independent oracle (tools/oracle_geo.py normal_at).
 TSetDir ==
   /\ l > 1 /\ Rec.e = "SetDir" /\ ph \in {"I", "Bm", "Bp"}
-  /\ LET cl == StateClauses(Rec, ph) IN Judge(cl, {}, "SetDir", NumU(Rec)) /\ ok' = (ok /\ cl = {})
+  /\ LET cl == StateClauses(Rec, ph) \cup IfF(Rec.f_dec, "C03.ReentrantDecision")
+     IN /\ viol' = Bump(viol, IF ok THEN cl ELSE {}) /\ dev' = dev
+        /\ stat' = [stat EXCEPT !["SetDir"] = @ + 1, ![IF ok THEN "judged" ELSE "unjudged"] = @ + 1,
+                                !["facts_U"] = @ + NumU(Rec),
+                                !["turns_exiting"] = @ + (IF ok THEN Rec.dx ELSE 0),
+                                !["turns_reentrant"] = @ + (IF ok THEN Rec.dr ELSE 0),
+                                !["turns_near_tangent"] = @ + (IF ok THEN Rec.dt ELSE 0)]
+        /\ ok' = (ok /\ cl = {})
   /\ has' = FALSE /\ nb' = FALSE
   /\ UNCHANGED <<ph, ub>>
 
